@@ -46,7 +46,14 @@ PLANS = {
             'more than one device (or a padded layout); distinct = distinct '
             '(mesh, grid, knobs, operation-with-arguments) signature, data '
             'seeds excluded. Rejected operations count neither as coverage nor '
-            'as violations.'),
+            'as violations. Engine S counters: s_scheduler_steps = simulated '
+            'time in scheduler ticks, s_messages, s_collective_instances, '
+            's_faults_fired per kind (delay / stall / duplicate / '
+            'duplicate_ignored), s_distinct_schedules = number of distinct '
+            'scheduler choice sequences (hash of every run/deliver/fault '
+            'decision) over all operations, s_replica_checks = bit-identity '
+            'checks between replicas along unused mesh axes. Engine R counters: '
+            'r_model_steps, r_sharded_steps, r_simulated_model_seconds.'),
         'real_vs_stub': {
             'real': ['all dinosaur code', 'jax shard_map / GSPMD / XLA CPU '
                      'collectives on 8 host-platform virtual devices (engine X)',
